@@ -192,6 +192,23 @@ class ChunkRaw(io.RawIOBase):
         return n
 
 
+def _raising_is_a_verdict(fn):
+    """The streams fed here are well formed: a framer that raises on one has not delivered the packets."""
+    import functools
+
+    @functools.wraps(fn)
+    def wrapped(*a, **k):
+        try:
+            return fn(*a, **k)
+        except (AssertionError, core.HarnessError):
+            raise
+        except Exception as e:
+            return f'{fn.__name__[4:]} framer raised {type(e).__name__}: {e} on a well-formed stream'
+
+    return wrapped
+
+
+@_raising_is_a_verdict
 def run_blocking(pkts, data, cuts):
     from bumble.transport.common import PacketReader
 
@@ -209,6 +226,7 @@ def run_blocking(pkts, data, cuts):
     return None
 
 
+@_raising_is_a_verdict
 def run_async(loop, pkts, data, cuts):
     from bumble.transport.common import AsyncPacketReader
 
@@ -244,6 +262,7 @@ def run_async(loop, pkts, data, cuts):
     return None
 
 
+@_raising_is_a_verdict
 def run_usb(ptype, pkts, cuts):
     from bumble.transport import usb
 
